@@ -32,11 +32,7 @@ import (
 func (c *c11World) callB(kind string, do func() error) error {
 	done := make(chan struct{})
 	go func() {
-		tm := time.NewTimer(20 * time.Second)
-		defer tm.Stop()
-		select {
-		case <-done:
-		case <-tm.C:
+		if simrt.IdleTimeout(done, 20*time.Second) {
 			simrt.Note("C11.returns", "hang:second-client:"+kind+":during-"+c.callKind, "%s of the second client did not return within 20 s of simulated time (first client's request around it: %s, entered by the core loop: %v); tasks: %v", kind, c.callKind, c.callEntered, simrt.AliveTaskInfo())
 		}
 	}()
